@@ -44,7 +44,7 @@ func c14keys(thorough bool) []c14key {
 		lit(`"s"`, `"s"`),
 		lit("3", "3"),
 		lit("'c'", "'c'"),
-		lit("[7]", "7"), // one-element array keys denote their element
+		lit("[7]", "7"),    // one-element array keys denote their element
 		{symColl, symColl}, // integer in the same bucket as symbol a
 		{strColl, strColl}, // integer in the same bucket as string "s"
 	}
